@@ -97,25 +97,45 @@ def hexOrDash (b : Bytes) : String := if b.isEmpty then "-" else hexOfBytes b
 def hex16 (v : UInt64) : String :=
   String.ofList ((List.range 16).map fun i => Grol.Wire.hexDigit ((v >>> (60 - 4 * i).toUInt64) &&& 15).toUInt8)
 
-partial def renderValue (st : St) : Obj → String
+mutual
+/-- the rendering of a value, given how a reference `(frame, name)` renders (`k`) -/
+def renderObjW (k : Nat → String → String) : Obj → String
   | .null => "n"
   | .bool b => if b then "t" else "f"
   | .int v => "i" ++ toString v.toInt
   | .float b => if (f64 b).isNaN then "dNaN" else "d" ++ hex16 b
   | .str s => "s" ++ hexOrDash s
   | .error _ => "E"
-  | .ret v _ => "R(" ++ renderValue st v ++ ")"
+  | .ret v _ => "R(" ++ renderObjW k v ++ ")"
   | .func f => "F" ++ hexOrDash (toBytes f.key)
   | .ext n => "X" ++ n
-  | .ref e n =>
-    match st.frames[e]? with
-    | some f => match lookupStore f.store n with
-      | some v => renderValue st v
-      | none => "?nil"
-    | none => "?nil"
+  | .ref e n => k e n
   | .quote _ => "Q"
-  | .array els => "a[" ++ ",".intercalate (els.map (renderValue st)) ++ "]"
-  | .map _ kvs => "m[" ++ ",".intercalate (kvs.map fun (k, v) => renderValue st k ++ ":" ++ renderValue st v) ++ "]"
+  | .array els => "a[" ++ ",".intercalate (renderListW k els) ++ "]"
+  | .map _ kvs => "m[" ++ ",".intercalate (renderPairsW k kvs) ++ "]"
+def renderListW (k : Nat → String → String) : List Obj → List String
+  | [] => []
+  | x :: xs => renderObjW k x :: renderListW k xs
+def renderPairsW (k : Nat → String → String) : List (Obj × Obj) → List String
+  | [] => []
+  | (a, b) :: xs => (renderObjW k a ++ ":" ++ renderObjW k b) :: renderPairsW k xs
+end
+
+/-- rendering with a bound on the number of references followed one after the other (a reference
+renders as its target; `?deep` marks a chain longer than the bound, which no evaluation produces:
+reference chains are as long as the call depth at most) -/
+def renderFuel (st : St) : Nat → Obj → String
+  | 0 => renderObjW (fun _ _ => "?deep")
+  | fuel + 1 => renderObjW (fun e n =>
+      match st.frames[e]? with
+      | some f => match lookupStore f.store n with
+        | some v => renderFuel st fuel v
+        | none => "?nil"
+      | none => "?nil")
+
+/-- the typed value rendering of the `eval` wire format (total: structural over the value, with an
+explicit bound where it follows a reference) -/
+def renderValue (st : St) (v : Obj) : String := renderFuel st 1000 v
 
 def insertSortedStr (x : String × String) : List (String × String) → List (String × String)
   | [] => [x]
